@@ -9,6 +9,7 @@ coq/theories/Stdout/Prim.v) into coq/theories/Gen/PeekFuns.v.
 Translation scheme (one Gallina `let` per Python statement, same order of effects):
   buffer[k] += e            let buffer := dd_set buffer k (str_add (dd_get buffer k) E) in
   buffer[k] = e             let buffer := dd_set buffer k E in
+  buffer[k]   (read)        dd_get buffer k
   x = buffer.pop(k)         let '(x, buffer) := dd_pop buffer k in
   del buffer[k]             let buffer := dd_remove buffer k in
   x = e                     let x := E in
@@ -97,6 +98,10 @@ class Fn:
             if isinstance(e.value, int) and not isinstance(e.value, bool):
                 return f'(Some ({e.value}))', 'pykey'
             fail(e, 'constant of unsupported type')
+        if self.is_buffer_sub(e) and isinstance(e.ctx, ast.Load):
+            # read of a defaultdict(str): a missing key reads as '' (that it is also inserted is not
+            # observable through the constructs of this fragment)
+            return f'(dd_get buffer {self.key_of(e, env)})', 'text'
         if isinstance(e, ast.BinOp) and isinstance(e.op, ast.Add):
             a, ta = self.expr(e.left, env)
             b, tb = self.expr(e.right, env)
@@ -138,23 +143,33 @@ class Fn:
             return [], f'str_{e.func.attr} {o} {a}'
         if isinstance(e, ast.Compare) and len(e.ops) == 1:
             op = e.ops[0]
-            l, tl = self.expr(e.left, env)
+            pre = []
+            if isinstance(e.left, ast.NamedExpr):
+                if not top:
+                    fail(e, 'assignment expression nested inside a condition')
+                v, t = self.expr(e.left.value, env)
+                x = ident(e.left.target.id, e)
+                env[x] = t
+                pre = [f'let {x} := {v} in']
+                l, tl = x, t
+            else:
+                l, tl = self.expr(e.left, env)
             r, tr = self.expr(e.comparators[0], env)
             if isinstance(op, (ast.In, ast.NotIn)):
                 if tl != 'text' or tr != 'text':
                     fail(e, '`in` on non-str')
                 c = f'str_contains {l} {r}'
-                return [], c if isinstance(op, ast.In) else f'negb ({c})'
+                return pre, c if isinstance(op, ast.In) else f'negb ({c})'
             if isinstance(op, (ast.Is, ast.IsNot)):
                 if not (isinstance(e.comparators[0], ast.Constant) and e.comparators[0].value is None and tl == 'pykey'):
                     fail(e, '`is` other than `<key> is [not] None`')
                 c = f'is_none {l}'
-                return [], c if isinstance(op, ast.Is) else f'negb ({c})'
+                return pre, c if isinstance(op, ast.Is) else f'negb ({c})'
             if isinstance(op, (ast.Eq, ast.NotEq)):
                 if tl != tr:
                     fail(e, '== between different types')
                 c = f'{"text_eqb" if tl == "text" else "key_eqb"} {l} {r}'
-                return [], c if isinstance(op, ast.Eq) else f'negb ({c})'
+                return pre, c if isinstance(op, ast.Eq) else f'negb ({c})'
             fail(e, 'comparison operator not supported')
         if isinstance(e, (ast.Name, ast.Constant)):
             c, t = self.expr(e, env)
